@@ -82,6 +82,7 @@ HANDWRITTEN = [
     '(x = 1) and (forall i in xs: (@i > x and y > 0))', 'not (exists i in xs: @i = 0)',
     '(forall i in xs: @i > 0) and y = @i', '(exists j in ys: @j = 1) or (forall k in {@j, 2}: @k > 0)',
     'forall i in xs: (forall j in ys: (@i > @j and @j > x))',
+    'sum({a, 1}) > 0 or a = b', 'prod({a, 2}) > 0 and a = c', 'sum({x, y, 2}) = 3',
     'x + 0 = x', '1 + 2 = 3', 'x - x = 0', 'x / x = 1', 'x * 0 = 0', '(p and q) and p', 'p or (q or p)',
 ]
 
